@@ -20,7 +20,7 @@
                     proto, with the builder's own reference lookup (exact full name; local
                     messages/enums by kind, then registry, else placeholder), its wire-order
                     treatment of FieldOptions (packed, lazy, features) and its handling of
-                    enum features (none) and of the lazy option on extensions.
+                    the lazy option on extensions.
    Not modelled: validation (desc_validate.go, C35), source locations, service methods,
    option_dependency, placeholders under AllowUnresolvable. *)
 From Coq Require Import List NArith ZArith Bool.
@@ -431,7 +431,7 @@ Definition fd_ref (want : N) (tbl : list Decl) (env : list RemoteD) (scope ref :
 
 Definition FD : Strategy :=
   mkStrategy fd_ref
-             (fun parent _ => parent)  (* Enum.unmarshalSeed/unmarshalFull never read EnumOptions.features *)
+             (fun parent o => merge_feat parent (gen_feat o))  (* Enum.unmarshalSeedOptions: EnumOptions.features *)
              fd_field_ef
              opts_lazy
              false.
